@@ -241,6 +241,7 @@ package tags
 //@ at call RenderBlock #1 assert firstTruthy: rendered == 0 && falsy == evals - 1 && laste == nil && lastv != nil && lastv != box(false) && arg1 == branches[evals-1].body
 //@ at call RenderBlock #1: rendered = rendered + 1
 //@ loop 1 invariant progress: evals == _i && falsy == _i && rendered == 0
+//@ loop 1 invariant lastFalsy: laste == nil && (evals > 0 ==> lastv == nil || lastv == box(false))
 //@ ensures atMostOne: rendered <= 1
 //@ ensures noneWhenAllFalsy: rendered == 0 && result == nil ==> falsy == len(branches) && evals == len(branches)
 //@ ensures evalError: laste != nil ==> result == laste && rendered == 0
@@ -249,6 +250,7 @@ package tags
 //@ interface tags.caseInterpreter
 //@ method body pure
 //@ method test
+//@ requires args: arg1 != nil
 //@ assigns nothing
 
 //@ func tags.caseTagCompiler$1
